@@ -8,7 +8,7 @@ format_simple_type applies it; (N2c) helper-struct references equal the helper-s
 import json
 import re
 
-from .. import core, emit, vt
+from .. import core, emit, inline, vt
 
 TYPE_OWNERS = ('RustStruct', 'RustTypeAlias', 'RustEnumShared')
 DEF_KEYWORDS = {
@@ -43,8 +43,9 @@ def role_of(seq, ix):
 
 
 def backend_fns(ctx, be):
+    # inlined views: a local helper that builds a type name (prefix + id ...) is seen through
     _, file = emit.BACKENDS[be]
-    return [f for f in ctx.astq['functions'] if f['file'].endswith(file)]
+    return [inline.view(ctx, f) for f in ctx.astq['functions'] if f['file'].endswith(file)]
 
 
 def run(ctx, rep):
